@@ -243,7 +243,6 @@ def _ground_list_terms(exprs):
             if Q.is_list_sort(x.sort()) and not _has_var(x):
                 out.append(x)
             todo.extend(x.children())
-    out.sort(key=lambda t: len(str(t)))
     return out
 
 
@@ -445,13 +444,20 @@ def discharge1_search(axioms, pc, goal, timeout_ms=None):
         return Result("discharged", "z3-5.1(api)", time.time() - t0)
     if r == z3.sat:
         return Result("refuted", "z3-5.1(api)", time.time() - t0, model=s.model())
-    s = z3.SimpleSolver()         # the plain SMT core keeps its candidate model on `unknown`
-    s.set("timeout", min(timeout_ms, 15000))
-    s.set("mbqi", False)
-    s.add(*axioms)
-    s.add(*spc)
-    s.add(ng)
-    r = s.check()
+    for max_inst in (None, 3000):
+        s = z3.SimpleSolver()         # the plain SMT core keeps its candidate model on `unknown`
+        s.set("timeout", min(timeout_ms, 15000))
+        s.set("mbqi", False)
+        if max_inst is not None:
+            # E-matching did not saturate in time: bound the number of instances instead (still every ground fact and
+            # every generated instance is satisfied by the candidate)
+            s.set("qi.max_instances", max_inst)
+        s.add(*axioms)
+        s.add(*spc)
+        s.add(ng)
+        r = s.check()
+        if r != z3.unknown or "incomplete" in s.reason_unknown():
+            break
     if r == z3.unsat:
         return Result("discharged", "z3-5.1(api)", time.time() - t0)
     if r == z3.sat:
